@@ -6,13 +6,14 @@ pub mod c01;
 pub mod c02;
 pub mod c08;
 pub mod c09;
+pub mod c10;
 pub mod c11;
 pub mod c12;
 pub mod c16;
 pub mod common;
 
 pub fn all() -> Vec<Arc<dyn Property>> {
-    vec![Arc::new(c01::C01), Arc::new(c02::C02), Arc::new(c08::C08), Arc::new(c09::C09), Arc::new(c11::C11), Arc::new(c12::C12), Arc::new(c16::C16)]
+    vec![Arc::new(c01::C01), Arc::new(c02::C02), Arc::new(c08::C08), Arc::new(c09::C09), Arc::new(c10::C10), Arc::new(c11::C11), Arc::new(c12::C12), Arc::new(c16::C16)]
 }
 
 pub fn by_id(id: &str) -> Option<Arc<dyn Property>> {
